@@ -804,7 +804,7 @@ class XsdElement(XsdComponent, ParticleMixin,
                     pass
                 elif isinstance(value, str):
                     if value[:1] == '{' and xsd_type.is_qname():
-                        value = text
+                        value = text.strip()  # the prefixed name, without insignificant spaces
                 elif isinstance(value, Decimal):
                     if context.decimal_type is not None:
                         value = context.decimal_type(value)
